@@ -131,7 +131,13 @@ func (g *c07Gen) pattern() jast.Node {
 
 func (g *c07Gen) update() jast.Node {
 	r := g.r
-	switch r.Intn(10) {
+	switch r.Intn(11) {
+	case 10:
+		// several members that are (or hold) the object itself: each must be a
+		// copy of the object as it was before the update, whatever the order
+		g.tags["update:self-twice"] = true
+		self := &jast.Var{Name: ""}
+		return obj("s1", self, "s2", self, "arr", &jast.Array{Items: []jast.Node{&jast.Array{Items: []jast.Node{self}}}}, "n", &jast.Num{V: 1})
 	case 9:
 		// a function-valued member must arrive in the result as the function
 		g.tags["update:function-member"] = true
